@@ -95,9 +95,22 @@ func init() {
 					}
 				}
 				// exactness for pure-ASCII, ACE-free hosts
-				if want, ok, decided := expectSpecialHost(d, plain); decided && sc != "file" {
+				if want, ok, decided := expectSpecialHost(d, plain); decided {
+					if sc == "file" && ok && want == "localhost" {
+						want = "" // the only exemption: a file URL's host localhost (exactly that) is the empty host
+					}
 					if ok != (o0.Kind == "U") || ok && o0.Fields[fHostname] != want {
 						c.Report(Finding{Class: "violation", What: fmt.Sprintf("pure-ASCII host %q: implementation %s, expected host %q (accepted=%v)", plain, o0.String(), want, ok), Case: cs})
+					}
+				}
+				// ... and nothing but localhost itself: near misses keep their host
+				if i%16 == 1 {
+					for _, nh := range []string{"localhost.", "LOCALHOST.", "localhost..", ".localhost", "xlocalhost", "localhost.x", "loc%41lhost.", "localhost%2E", "localhos", "localhost-", "local.host"} {
+						o := c.cmpParse(d, defaultCfg, nil, "file://"+nh+"/x", allButVerrs, true, "file-near-localhost", i)
+						want := asciiLower(pctDecode(nh))
+						if o.Kind != "U" || o.Fields[fHostname] != want {
+							c.Report(Finding{Class: "violation", What: fmt.Sprintf("file://%s/x: expected the host %q, got %s", nh, want, o.String()), Case: Case{Kind: "parse", Input: "file://" + nh + "/x", Family: "file-near-localhost", Index: i}})
+						}
 					}
 				}
 				// file URL: localhost in any spelling is the empty host
@@ -110,7 +123,7 @@ func init() {
 				}
 			})
 		},
-		rule: "hosts built from a fixed list of code points (ASCII, mapped, ignored, bidi, joiner, fullwidth, ideographic dots, STD3-disallowed ASCII) as 1-3 labels, in five special schemes; each host is spelled plainly and in three variants (ASCII case flips, partial and total whole-code-point percent-encoding with either hex case); outcome, hostname and href must coincide; pure-ASCII ACE-free hosts must equal the Spec pipeline's result; file://localhost variants must give the empty host",
+		rule:   "hosts built from a fixed list of code points (ASCII, mapped, ignored, bidi, joiner, fullwidth, ideographic dots, STD3-disallowed ASCII) as 1-3 labels, in five special schemes; each host is spelled plainly and in three variants (ASCII case flips, partial and total whole-code-point percent-encoding with either hex case); outcome, hostname and href must coincide; pure-ASCII ACE-free hosts must equal the Spec pipeline's result; file://localhost variants must give the empty host",
 		assume: []string{"UTS #46 processing itself (golang.org/x/net/idna) is taken as given: only consistency across spellings is decided for non-ASCII/ACE hosts"},
 	}
 
